@@ -23,7 +23,7 @@ def run(ctx):
         rule=("layers {strided, morton<use_bmi2=true> (pdep path in the +bmi2 build), morton<false>, hilbert (N=2)} x N 1..4 x coordinate "
               "{size_t, unsigned, int} x (storage, M) in {(float,1),(double,3)} (size_t also (double,2),(float,4)).  (a) array-backed: EVERY "
               "extent vector in 1..B_N (64/12/6/4 quick, 256/24/10/6 thorough): unique id written to every component of every cell through "
-              "the view, all read back, one random cell overwritten, all re-read; curve storage = (pow2 >= max extent)^N as the library's "
+              "the view, all read back, one random cell overwritten, all re-read, then (two of three extent vectors) the field copy-assigned over a field with other extents and all cells read back through the new field, one written there; curve storage = (pow2 >= max extent)^N as the library's "
               "conversions allocate; ASan + library bounds assertions on.  (b) probe-backed: random extents up to 2^20 per axis (storage up "
               "to 2^62 cells, none allocated), boundary (0, extent-1, 2^k, 2^k-1) and random in-range coordinates: every flat index < storage "
               "length and no two distinct coordinates share one.  (c) 8- and 16-bit coordinate types over their full range: one axis of extent 2^bits, 2^bits-1 "
